@@ -193,30 +193,6 @@ Definition csc_get_batch (m : comp) (rows : list nat) (n_rows n_cols E L Lc : na
   bind (transpose m true n_rows None E L Lc) (fun t => csr_get_batch rows n_cols (t_out t)).
 
 (* ---------------------------------------------------------------- specification *)
-(* a well-formed compressed matrix with n_minor possible minor indices *)
-Definition wf_comp (m : comp) (n_minor : nat) : Prop :=
-  (exists t, ptr m = 0 :: t) /\
-  last (ptr m) 0 = length (idx m) /\
-  (forall i, S i < length (ptr m) -> nth i (ptr m) 0 <= nth (S i) (ptr m) 0) /\
-  Forall (fun r => r < n_minor) (idx m).
-
-(* positions of the stored entries of major slice j *)
-Definition span (m : comp) (j : nat) : list nat :=
-  seq (nth j (ptr m) 0) (nth (S j) (ptr m) 0 - nth j (ptr m) 0).
-
-(* is (major j, minor x) stored?  which value? *)
-Definition stored (m : comp) (j x : nat) : bool :=
-  existsb (fun k => nth k (idx m) 0 =? x) (span m j).
-Definition lookup (m : comp) (j x : nat) : option Z :=
-  match find (fun k => nth k (idx m) 0 =? x) (span m j) with
-  | Some k => Some (nth k (dat m) 0%Z)
-  | None => None
-  end.
-
-(* no major slice stores a minor index twice *)
-Definition no_dup_minor (m : comp) : Prop :=
-  forall j, S j < length (ptr m) -> NoDup (map (fun k => nth k (idx m) 0) (span m j)).
-
 (* the abstract transpose: entries of the slice grouped by (renumbered) minor index,
    in storage order inside each group *)
 Definition out_row (es : list entry) (r : nat) : list entry :=
